@@ -692,7 +692,7 @@ def run_e2e_case(inp: dict) -> dict:
             with open(out / target, "w", newline="") as f:
                 f.write(pristine[target].replace("\n", "\r\n"))
         elif mut == "strip_final_nl":
-            cands = [k for k in small_py if pristine[k].endswith("\n") and not pristine[k].endswith("\n\n")]
+            cands = [k for k in small_py if pristine[k].endswith("\n") and not pristine[k].endswith("\n\n")] or small_py
             target = cands[pick % len(cands)]
             with open(out / target, "w", newline="") as f:
                 f.write(pristine[target][:-1])
@@ -942,8 +942,8 @@ MUTATIONS = {
 }
 
 
-def make_mutant(name: str) -> Path:
-    rel, old, new = MUTATIONS[name]
+def make_mutant(name: str, table: dict | None = None) -> Path:
+    rel, old, new = (table or MUTATIONS)[name]
     dst = (BUILD / "mut" / name / "src").resolve()
     if dst.exists():
         shutil.rmtree(dst)
